@@ -25,7 +25,7 @@ from harness.core import st
 from harness.oracles import exc_bucket, snapshot
 
 ID = "C15"
-RULE = ("all annotations of depth <= 2 over 55 leaves x 17 unary and 5 binary constructors (exhaustive) plus sampled depth-3 "
+RULE = ("all annotations of depth <= 2 over 56 leaves x 17 unary and 5 binary constructors (exhaustive) plus sampled depth-3 "
         "annotations; non-trivial = an extended constructor (Any, object, bare/unparameterised generic, TypeVar, Callable, "
         "type[..], user Generic, hint-less class) occurs below the root; distinct by annotation expression")
 ASSUMPTIONS = ["annotations that Python itself refuses to construct are skipped (counted)",
@@ -35,7 +35,7 @@ LEVEL_TEXT = ("Complete enumeration of the extended constructor grammar to depth
               "of all three routine kinds under a watchdog, a repeat after a cache hit and after clearing all caches, a behavioural "
               "battery, and identity checks for pass-through members; depth 3 sampled.")
 LEVEL_NOTE = "trusts the watchdog (20 s, typical build 2 ms) as the meaning of 'terminates'"
-EXHAUSTIVE_NOTE = "depth <= 2: 55 leaves, 17 unary x 55 + 5 binary x 55 x 55 annotations, complete on every run"
+EXHAUSTIVE_NOTE = "depth <= 2: 56 leaves, 17 unary x 56 + 5 binary x 56 x 56 annotations, complete on every run"
 
 MOD = "c15_types_mod"
 SRC = '''
@@ -56,6 +56,10 @@ class NoHintsInit:
         self.a, self.b = a, b
     def __eq__(self, o):
         return type(o) is type(self) and vars(o) == vars(self)
+class NoHintsChild(NoHintsInit):
+    """declares nothing itself: its members are those of the constructor it inherits"""
+    def total(self):
+        return self.a
 class NoHintsDefaults:
     def __init__(self, name, retries=3, label="", ratio=0.5, flags=(), when=None):
         self.name, self.retries, self.label, self.ratio, self.flags, self.when = name, retries, label, ratio, flags, when
@@ -112,16 +116,16 @@ LEAVES = ["int", "str", "float", "bool", "bytes", "decimal.Decimal", "datetime.d
           "pathlib.Path", "re.Pattern", "None", "Any", "object", "list", "dict", "tuple", "set", "frozenset",
           "typing.List", "typing.Dict", "typing.Tuple", "typing.Set", "typing.Sequence", "typing.Mapping", "T", "TB", "TC",
           "typing.Callable", "typing.Callable[..., int]", "typing.Callable[[int], str]", "collections.abc.Callable[[int], str]",
-          "type", "type[int]", "typing.Type[DC]", "G", "G[int]", "NoHints", "NoHintsInit", "NoHintsDefaults", "DC", "E", "NT", "TD",
+          "type", "type[int]", "typing.Type[DC]", "G", "G[int]", "NoHints", "NoHintsInit", "NoHintsChild", "NoHintsDefaults", "DC", "E", "NT", "TD",
           "typing.Literal[1, 'a']", "typing.Iterable", "collections.deque", "SelfSet", "DCNoInit", "Sparse", "AL_NoHints", "AL_listAny", "AL_Lit", "TBN", "NT_NoHints",
           "list[Any]"]
 EXTENDED = {"Any", "object", "list", "dict", "tuple", "set", "frozenset", "typing.List", "typing.Dict", "typing.Tuple",
             "typing.Set", "typing.Sequence", "typing.Mapping", "T", "TB", "TC", "typing.Callable", "typing.Callable[..., int]",
             "typing.Callable[[int], str]", "collections.abc.Callable[[int], str]", "type", "type[int]", "typing.Type[DC]", "G",
-            "G[int]", "NoHints", "NoHintsInit", "NoHintsDefaults", "typing.Iterable", "collections.deque", "SelfSet", "DCNoInit", "Sparse", "AL_NoHints", "AL_listAny", "AL_Lit", "TBN",
+            "G[int]", "NoHints", "NoHintsInit", "NoHintsChild", "NoHintsDefaults", "typing.Iterable", "collections.deque", "SelfSet", "DCNoInit", "Sparse", "AL_NoHints", "AL_listAny", "AL_Lit", "TBN",
             "NT_NoHints", "list[Any]"}
 # classes without any annotation: the parameters of __init__ are their (unresolvable) members
-HINTLESS = {"NoHintsInit": ["a", "b"], "NoHintsDefaults": ["name", "retries", "label", "ratio", "flags", "when"]}
+HINTLESS = {"NoHintsInit": ["a", "b"], "NoHintsChild": ["a", "b"], "NoHintsDefaults": ["name", "retries", "label", "ratio", "flags", "when"]}
 PASSTHROUGH = {"Any", "object", "T", "typing.Callable", "typing.Callable[..., int]", "typing.Callable[[int], str]",
                "collections.abc.Callable[[int], str]"}
 UNARY = {
@@ -206,6 +210,8 @@ def battery(T):
             out.append((name, src, ("exc", tl.exc_name(v)) if kk == "exc" else ("ok", snapshot(v))))
         if kc == "ok":
             kk, b = tl.call(cd.encode, x)
+            if kk == "ok" and not isinstance(b, (bytes, bytearray, memoryview)):
+                out.append(("codec-wire", src, ("not-bytes", type(b).__name__)))   # what a codec writes is bytes, whatever T is
             if kk == "ok":
                 k2, v2 = tl.call(cd.decode, b)
                 out.append(("codec", src, ("exc", tl.exc_name(v2)) if k2 == "exc" else ("ok", snapshot(v2))))
@@ -290,6 +296,9 @@ def check_annotation(expr, col, passthrough=None, nontrivial=False, source="exha
         if prev != out_:
             col.violation("repeatable", case, f"{expr}: {name_}({src_}) gave {prev!r:.100} and, later in the same battery, {out_!r:.100}", bucket="same-input-twice")
             break
+    nb = next((x for x in b1 if x[0] == "codec-wire"), None)
+    if nb and "bytes" not in expr:   # (a bytes-like T is its own wire format: what it writes for a value that is no bytes is not judged)
+        col.violation("construction-succeeds", case, f"codec({expr}).encode({nb[1]}) returned a {nb[2][1]}, not bytes", bucket="codec-wire-not-bytes")
     b2 = battery(T)  # cache hit
     tl.clear_all()
     b3 = battery(T)
